@@ -10,15 +10,28 @@
 // those handlers use and to the proxy's docker-registry storage driver
 // (`_uploads/<id>/...` paths).
 //
+// Configuration dimension: the same routes and calls, with a sub-alphabet of
+// the names (short hostile names, ordinary flat and nested names, traversal
+// names, two well-formed digests), are run against stores that the real
+// constructors build from every configuration in {flat layout, each store
+// directory alone two levels deep under otherwise empty directories} x
+// {directory string clean, with a trailing slash (as in every shipped
+// config/*/base.yaml), with `//`, with a `/./` segment, with an `x/../`
+// segment}: code that compares, trims or joins paths against the CONFIGURED
+// directory string instead of a cleaned one behaves differently only there.
+//
 // Observer: each store lives in a fresh tree  <top>/g3/g2/sandbox/{upload,cache}
+// (nested layout: .../sandbox/spoolu/deep/upload, .../sandbox/spoolc/deep/cache)
 // with sentinel files next to the store directories (and, in the "planted"
 // variant, files called `data` where a one- or two-level escape would land).
 // The whole <top> tree is snapshotted (path, type, size, mtime, sha256)
 // before and after every request. Oracle (property text): no file outside
-// sandbox/upload and sandbox/cache is created, modified or deleted; no response
-// carries the content of a sentinel (read outside); a storing request that is
-// answered 2xx has stored its file inside the store directory (names that
-// cannot be stored there are rejected with an error).
+// the store directories is created, modified or deleted -- a store directory
+// itself and its ancestors are outside (they are entries of directories that
+// are not the store's); no response carries the content of a sentinel (read
+// outside); a storing request that is answered 2xx has stored its file inside
+// the store directory (names that cannot be stored there are rejected with an
+// error).
 package main
 
 import (
@@ -176,16 +189,61 @@ type change struct {
 // that is snapshotted and that belongs to this check alone.
 const pre = "g3/g2/"
 
-func isRoot(rel string) bool { return rel == pre+"sandbox/upload" || rel == pre+"sandbox/cache" }
-
-func inside(rel string) bool {
-	return strings.HasPrefix(rel, pre+"sandbox/upload/") || strings.HasPrefix(rel, pre+"sandbox/cache/")
+// layout says where (relative to <top>, in clean form) the two store
+// directories of a sandbox are.
+type layout struct {
+	name         string
+	upRel, caRel string
 }
+
+var (
+	// the layout of the name-enumeration phase
+	flatLayout = layout{"flat", pre + "sandbox/upload", pre + "sandbox/cache"}
+	// each store directory two levels deep under a parent that holds nothing else
+	nestedLayout = layout{"nested", pre + "sandbox/spoolu/deep/upload", pre + "sandbox/spoolc/deep/cache"}
+)
+
+func (l *layout) isRoot(rel string) bool { return rel == l.upRel || rel == l.caRel }
+
+func (l *layout) inside(rel string) bool {
+	return strings.HasPrefix(rel, l.upRel+"/") || strings.HasPrefix(rel, l.caRel+"/")
+}
+
+// spelling is one way of writing the path <dir>/<base> in a configuration.
+type spelling struct {
+	name  string
+	clean bool
+	spell func(dir, base string) string
+}
+
+var spellings = []spelling{
+	{"clean", true, func(d, b string) string { return d + "/" + b }},
+	{"trailing slash", false, func(d, b string) string { return d + "/" + b + "/" }},
+	{"double slash", false, func(d, b string) string { return d + "//" + b }},
+	{"./ segment", false, func(d, b string) string { return d + "/./" + b }},
+	{"x/../ segment", false, func(d, b string) string { return d + "/" + b + "/../" + b }},
+}
+
+// storeCfg is one configuration of the two store directories: where they are
+// and how the configuration spells each of them.
+type storeCfg struct {
+	lay        layout
+	upSp, caSp spelling
+}
+
+func (c *storeCfg) String() string {
+	return fmt.Sprintf("%s layout, upload_dir: %s, cache_dir: %s", c.lay.name, c.upSp.name, c.caSp.name)
+}
+
+func (c *storeCfg) clean() bool { return c.upSp.clean && c.caSp.clean }
+
+var defaultCfg = &storeCfg{flatLayout, spellings[0], spellings[0]}
 
 // diff returns the changes outside the store directories, the number of
 // changes inside, whether a data file was created inside, and whether a store
 // root directory itself disappeared.
-func diff(base, after snapshot) (outside []change, insideN int, newInsideFile bool, rootGone bool) {
+func diff(l *layout, base, after snapshot) (outside []change, insideN int, newInsideFile bool, rootGone bool) {
+	isRoot, inside := l.isRoot, l.inside
 	for p, b := range base {
 		a, ok := after[p]
 		switch {
@@ -252,6 +310,7 @@ type surface struct {
 
 type sandbox struct {
 	parent  string
+	cfg     *storeCfg
 	base    snapshot
 	secrets []string
 	handler http.Handler
@@ -285,12 +344,12 @@ func writeSentinel(path, content string) error {
 	return os.Chtimes(path, old, old)
 }
 
-func newSandbox(sf *surface, planted bool, ifd int) (*sandbox, error) {
+func newSandbox(sf *surface, planted bool, ifd int, cfg *storeCfg) (*sandbox, error) {
 	parent, err := os.MkdirTemp("", "c11-")
 	if err != nil {
 		return nil, err
 	}
-	sb := &sandbox{parent: parent, ifd: ifd}
+	sb := &sandbox{parent: parent, ifd: ifd, cfg: cfg}
 	g2 := filepath.Join(parent, "g3", "g2")
 	g3 := filepath.Join(parent, "g3")
 	root := filepath.Join(g2, "sandbox")
@@ -405,7 +464,7 @@ func (sb *sandbox) recycle(sf *surface, planted bool, v verdict) bool {
 	}
 	for p := range v.after {
 		if _, ok := sb.base[p]; !ok {
-			if !inside(p) {
+			if !sb.inside(p) {
 				return false
 			}
 			added = append(added, p)
@@ -430,7 +489,7 @@ func (sb *sandbox) recycle(sf *surface, planted bool, v verdict) bool {
 	}
 	// the outside part must be exactly what it was
 	for p, b := range sb.base {
-		if !inside(p) && !isRoot(p) && base[p] != b {
+		if !sb.inside(p) && !sb.isRoot(p) && base[p] != b {
 			return false
 		}
 	}
@@ -597,9 +656,15 @@ func newBackends0() (*backend.Manager, error) {
 // ---------------------------------------------------------------------------
 // surfaces
 
+// dirs returns the store directories as the configuration spells them.
 func (sb *sandbox) dirs() (upload, cache string) {
-	return filepath.Join(sb.parent, "g3", "g2", "sandbox", "upload"), filepath.Join(sb.parent, "g3", "g2", "sandbox", "cache")
+	l := &sb.cfg.lay
+	return sb.cfg.upSp.spell(filepath.Join(sb.parent, filepath.Dir(l.upRel)), filepath.Base(l.upRel)),
+		sb.cfg.caSp.spell(filepath.Join(sb.parent, filepath.Dir(l.caRel)), filepath.Base(l.caRel))
 }
+
+func (sb *sandbox) inside(rel string) bool { return sb.cfg.lay.inside(rel) }
+func (sb *sandbox) isRoot(rel string) bool { return sb.cfg.lay.isRoot(rel) }
 
 func buildSimple(sb *sandbox) error {
 	up, ca := sb.dirs()
@@ -1032,6 +1097,69 @@ func params(maxLen int) (all []string, nSeq int) {
 	return
 }
 
+// ordinaryTokens spell the names clients normally send: flat names, the
+// pre-stored name `a`, and nested names ("a/b", "a/b/a" -- tags of the form
+// repo/image:tag), sent with an escaped separator.
+var ordinaryTokens = []string{"a", "b", "%2f"}
+
+// configParams returns the sub-alphabet of names used against every store
+// directory configuration: all sequences of <= hostileLen hostile tokens, all
+// sequences of <= 3 ordinary tokens, all sequences of <= 2 traversal tokens,
+// each raw and percent-encoded once more, plus two well-formed hex digests (the
+// digest of the upload in progress and a different one).
+func configParams(hostileLen int) (all []string, nSeq int) {
+	set := map[string]struct{}{}
+	var alphabet []string
+	var maxLen int
+	var rec func(prefix string, depth int)
+	rec = func(prefix string, depth int) {
+		if depth > 0 {
+			nSeq++
+			set[prefix] = struct{}{}
+			set[url.PathEscape(prefix)] = struct{}{}
+		}
+		if depth == maxLen {
+			return
+		}
+		for _, t := range alphabet {
+			rec(prefix+t, depth+1)
+		}
+	}
+	alphabet, maxLen = tokens, hostileLen
+	rec("", 0)
+	alphabet, maxLen = ordinaryTokens, 3
+	rec("", 0)
+	alphabet, maxLen = traversalTokens, 2
+	rec("", 0)
+	for _, h := range []string{blobADigest.Hex(), tagDigest.Hex()} {
+		nSeq++
+		set[h] = struct{}{}
+	}
+	for s := range set {
+		all = append(all, s)
+	}
+	sort.Strings(all)
+	return
+}
+
+// storeCfgs returns the configurations of the configuration phase: both
+// layouts x every spelling, upload and cache directory spelled the same way
+// (quick) or independently (thorough: the full product).
+func storeCfgs(product bool) []*storeCfg {
+	var out []*storeCfg
+	for _, l := range []layout{flatLayout, nestedLayout} {
+		for _, us := range spellings {
+			for _, cs := range spellings {
+				if !product && us.name != cs.name {
+					continue
+				}
+				out = append(out, &storeCfg{l, us, cs})
+			}
+		}
+	}
+	return out
+}
+
 // names for the direct store calls: the strings themselves and what they
 // unescape to (what a handler would pass on).
 func directNames(ps []string) []string {
@@ -1060,12 +1188,16 @@ type verdict struct {
 	unstored bool
 	insideN  int
 	after    snapshot // tree after the request (only when something mutated)
-	rootGone bool
+	rootGone bool     // a store directory itself was removed or replaced
 	changed  bool
+	// the request mutated something and left no entry in the upload directory
+	uploadEmpty bool
 }
 
+// A store directory is not a file inside itself: removing it removes an entry
+// of its parent directory, which is outside the store.
 func (v verdict) bad() bool {
-	return len(v.outside) > 0 || len(v.leaks) > 0 || len(v.reads) > 0 || v.unstored
+	return len(v.outside) > 0 || len(v.leaks) > 0 || len(v.reads) > 0 || v.unstored || v.rootGone
 }
 
 func (v verdict) class() string {
@@ -1085,6 +1217,9 @@ func (v verdict) class() string {
 	if len(parts) > 0 {
 		return strings.Join(parts, "+") + " files outside the store directories"
 	}
+	if v.rootGone {
+		return classRootGone
+	}
 	if v.unstored {
 		return "answers success without storing the name inside the store directory"
 	}
@@ -1103,7 +1238,7 @@ func judge(sf *surface, o *op, sb *sandbox, res opResult) (verdict, error) {
 		if e.mask&mutMask != 0 {
 			mutated = true
 		}
-		if e.mask&readMask != 0 && e.mask&syscall.IN_ISDIR == 0 && !inside(e.rel) && !isRoot(e.rel) {
+		if e.mask&readMask != 0 && e.mask&syscall.IN_ISDIR == 0 && !sb.inside(e.rel) && !sb.isRoot(e.rel) {
 			readSet[e.rel] = true
 		}
 	}
@@ -1118,7 +1253,14 @@ func judge(sf *surface, o *op, sb *sandbox, res opResult) (verdict, error) {
 			return v, err
 		}
 		v.after = after
-		v.outside, v.insideN, newFile, v.rootGone = diff(sb.base, after)
+		v.outside, v.insideN, newFile, v.rootGone = diff(&sb.cfg.lay, sb.base, after)
+		v.uploadEmpty = true
+		for p := range after {
+			if strings.HasPrefix(p, sb.cfg.lay.upRel+"/") {
+				v.uploadEmpty = false
+				break
+			}
+		}
 		v.changed = len(v.outside) > 0 || v.insideN > 0 || v.rootGone
 		// the snapshot itself opened the changed files: forget those events
 		if _, _, err := sb.drain(); err != nil {
@@ -1134,6 +1276,20 @@ func judge(sf *surface, o *op, sb *sandbox, res opResult) (verdict, error) {
 		v.unstored = true
 	}
 	return v, nil
+}
+
+const classRootGone = "deletes the store directory itself"
+
+// nameFingerprint is the fingerprint of a case that fails because of the name
+// in the request: (surface, effect, name). When the only effect is that the
+// store directory itself went away the name is not part of it: the name does
+// not denote anything outside the store (every ordinary name that ends an
+// upload reaches such a defect), so one class per surface.
+func nameFingerprint(sf, class, name string) string {
+	if class == classRootGone {
+		return fmt.Sprintf("%s: %s", sf, class)
+	}
+	return fmt.Sprintf("%s: %s (name %q)", sf, class, shortName(name))
 }
 
 func shortName(n string) string {
@@ -1154,11 +1310,27 @@ type violAgg struct {
 
 type counters struct {
 	requests, routed, recycles, parseRejected, accepted, rejected, insideEffects, outsideEffects, leaks, unstored, rootGone, rebuilds, panics int64
+	// configuration phase
+	cfgRequests, cfgRouted, cfgAccepted, cfgInside, cfgUploadEmptied, cfgViolating int64
+}
+
+// cfgViol is one violating case of the configuration phase. Whether the
+// configuration or the name is what makes it fail is decided after the run by
+// comparing with the same case under the clean spelling of the same layout.
+type cfgViol struct {
+	sf, label, variant, input, name, class string
+	cfg                                    *storeCfg
+	detail                                 map[string]interface{}
+}
+
+func (c *cfgViol) caseKey(cfgName string) string {
+	return strings.Join([]string{c.sf, c.label, c.variant, c.input, cfgName}, "\x00")
 }
 
 func main() {
 	run := evid.New("C11", "exploration")
 	maxLen := 4
+	hostileLen := 2
 	budget := 240 * time.Second
 	if run.Thorough() {
 		maxLen = 5
@@ -1166,9 +1338,23 @@ func main() {
 	}
 	ps, nSeq := params(maxLen)
 	names := directNames(ps)
-	run.Rule = fmt.Sprintf("all %d token sequences of length 1..%d over {. / a %%2e %%2f %%25 .. \\} -> %d distinct URL parameter strings (each raw and url.PathEscape'd) substituted into every parameterised route of the real build-index tag server and origin blob server (ServeHTTP; {digest} parameters also with a leading `sha256:`), and %d distinct unescaped names passed to the SimpleStore/CAStore APIs and to the proxy storage driver's _uploads/<id> paths; every case is run in a bare and in a planted sandbox (files named `data`, and victims the alphabets can spell -- a regular file `a` and an empty directory `aa` -- beside, one and two levels above the store directories). A case is counted distinct and non-trivial when the router/API delivered the string to the code under test: key = (surface, route or call, name as seen after unescaping).", nSeq, maxLen, len(ps), len(names))
+	cps, cSeq := configParams(hostileLen)
+	cnames := directNames(cps)
+	cfgs := storeCfgs(run.Thorough())
+	cfgVariants := []bool{true}
+	cfgVariantText := "planted sandbox"
+	if run.Thorough() {
+		cfgVariants = []bool{false, true}
+		cfgVariantText = "bare and planted sandbox"
+	}
+	cfgProduct := "upload_dir and cache_dir spelled the same way"
+	if run.Thorough() {
+		cfgProduct = "upload_dir and cache_dir spelled independently (full product)"
+	}
+	run.Rule = fmt.Sprintf("(1) names: all %d token sequences of length 1..%d over {. / a %%2e %%2f %%25 .. \\} -> %d distinct URL parameter strings (each raw and url.PathEscape'd) substituted into every parameterised route of the real build-index tag server and origin blob server (ServeHTTP; {digest} parameters also with a leading `sha256:`), and %d distinct unescaped names passed to the SimpleStore/CAStore APIs and to the proxy storage driver's _uploads/<id> paths; every case is run in a bare and in a planted sandbox (files named `data`, and victims the alphabets can spell -- a regular file `a` and an empty directory `aa` -- beside, one and two levels above the store directories). (2) configurations: the same routes and calls with a sub-alphabet of %d sequences (<= %d hostile tokens, <= 3 tokens over the ordinary names {a b %%2f}, <= 2 traversal tokens, two well-formed hex digests; %d URL parameter strings, %d direct names) against stores built by the real constructors from %d configurations = {flat: <S>/upload + <S>/cache | nested: <S>/spoolu/deep/upload + <S>/spoolc/deep/cache, each alone under two otherwise empty directories} x spellings {clean, trailing slash, // inside, /./ inside, x/../ inside} of the configured directory strings (%s; %s). A case is counted distinct and non-trivial when the router/API delivered the string to the code under test: key = (surface, route or call, name as seen after unescaping[, configuration]).", nSeq, maxLen, len(ps), len(names), cSeq, hostileLen, len(cps), len(cnames), len(cfgs), cfgProduct, cfgVariantText)
 	run.Assume("small-scope: names of at most " + fmt.Sprint(maxLen) + " tokens over the 8-token hostile alphabet plus all sequences of at most 4 tokens over {.. / cache upload a %2f} (names of siblings that share a store directory's base name as prefix) plus all sequences of at most 3 (quick) / 4 (thorough) compound tokens over {../ ..%2f a/a aa/a a%2fa aa%2fa} (climb k levels, name a planted victim, one more segment); longer names and other bytes (NUL, unicode, other percent escapes) are not enumerated")
-	run.Assume("observer: before/after snapshot (path,type,size,mtime,sha256) of the whole parent tree of the store directories; creation/modification/deletion outside is always seen, a pure read outside is seen only when its content reaches the response (sentinel contents are searched in every response body / returned byte slice)")
+	run.Assume("configurations: absolute directory strings only, five spellings of the same directory (clean, trailing slash, double slash, ./ segment, x/../ segment), two layouts; relative directories (would need a per-process working directory), symlinked directories and upload/cache directories nested inside one another are not enumerated; in the quick tier both directories use the same spelling and only the planted sandbox is used; one request per freshly built store (start state: build-index/SimpleStore with an empty upload directory and one cached tag `a`; origin/CAStore/proxy with one upload `a` in progress)")
+	run.Assume("observer: before/after snapshot (path,type,size,mtime,sha256) of the whole parent tree of the store directories; creation/modification/deletion outside -- including removal of a store directory itself and of its ancestors -- is always seen, a pure read outside is seen only when its content reaches the response (sentinel contents are searched in every response body / returned byte slice)")
 	run.Assume("remote services (storage backend, other origins, neighbours, write-back queue, tag replication) are fakes; names handed to them are not files of this server")
 	run.Assume("HTTP layer modelled as net/http does: request target parsed by url.ParseRequestURI, no path cleaning before the chi router")
 	run.Assume("agent server and the docker-distribution HTTP front of the proxy are not driven: the agent only uses validated digests as file names, the proxy is covered at its storage-driver boundary")
@@ -1178,35 +1364,55 @@ func main() {
 	type task struct {
 		sf      *surface
 		planted bool
+		cfg     *storeCfg
+		phase2  bool
 		inputs  []string
 	}
 	var tasks []task
 	const chunk = 256
+	addTasks := func(sf *surface, planted bool, cfg *storeCfg, phase2 bool, in []string) {
+		for i := 0; i < len(in); i += chunk {
+			j := i + chunk
+			if j > len(in) {
+				j = len(in)
+			}
+			tasks = append(tasks, task{sf, planted, cfg, phase2, in[i:j]})
+		}
+	}
+	// the configuration phase is the smaller one: it goes first so that the time
+	// budget can only cut the name phase
+	for _, cfg := range cfgs {
+		for _, sf := range surfaces {
+			in := cnames
+			if sf.http {
+				in = cps
+			}
+			for _, planted := range cfgVariants {
+				addTasks(sf, planted, cfg, true, in)
+			}
+		}
+	}
 	for _, sf := range surfaces {
 		in := names
 		if sf.http {
 			in = ps
 		}
 		for _, planted := range []bool{false, true} {
-			for i := 0; i < len(in); i += chunk {
-				j := i + chunk
-				if j > len(in) {
-					j = len(in)
-				}
-				tasks = append(tasks, task{sf, planted, in[i:j]})
-			}
+			addTasks(sf, planted, defaultCfg, false, in)
 		}
 	}
 
 	var cnt counters
 	var mu sync.Mutex
-	opStats := map[string]map[string]int64{} // op label -> outcome -> count
+	opStats := map[string]map[string]int64{}  // op label -> outcome -> count
+	cfgStats := map[string]map[string]int64{} // configuration -> outcome -> count
 	deadline := time.Now().Add(budget)
 	var timedOut atomic.Bool
 	var next atomic.Int64
 	var wg sync.WaitGroup
 	sampleSeen := map[string]bool{}
 	viols := map[string]*violAgg{}
+	var cfgViols []*cfgViol
 	var rootGoneCases []string
 
 	variantName := func(p bool) string {
@@ -1214,6 +1420,18 @@ func main() {
 			return "planted"
 		}
 		return "bare"
+	}
+	addViol := func(fp, via, input string, first map[string]interface{}) {
+		ag := viols[fp]
+		if ag == nil {
+			ag = &violAgg{first: first, via: map[string]map[string]bool{}}
+			viols[fp] = ag
+		}
+		ag.n++
+		if ag.via[via] == nil {
+			ag.via[via] = map[string]bool{}
+		}
+		ag.via[via][input] = true
 	}
 
 	worker := func() {
@@ -1226,16 +1444,21 @@ func main() {
 		}
 		defer syscall.Close(ifd)
 		local := map[string]map[string]int64{}
-		defer func() {
-			mu.Lock()
-			for l, m := range local {
-				if opStats[l] == nil {
-					opStats[l] = map[string]int64{}
+		localCfg := map[string]map[string]int64{}
+		merge := func(dst, src map[string]map[string]int64) {
+			for l, m := range src {
+				if dst[l] == nil {
+					dst[l] = map[string]int64{}
 				}
 				for k, v := range m {
-					opStats[l][k] += v
+					dst[l][k] += v
 				}
 			}
+		}
+		defer func() {
+			mu.Lock()
+			merge(opStats, local)
+			merge(cfgStats, localCfg)
 			mu.Unlock()
 		}()
 		for {
@@ -1250,7 +1473,7 @@ func main() {
 			t := tasks[i]
 			var sb *sandbox
 			fresh := func() *sandbox {
-				s, err := newSandbox(t.sf, t.planted, ifd)
+				s, err := newSandbox(t.sf, t.planted, ifd, t.cfg)
 				if err != nil {
 					run.Fatal(err)
 				}
@@ -1279,37 +1502,63 @@ func main() {
 					case v.insideN > 0:
 						outcome = "rejected+inside-effect"
 					}
-					key := t.sf.name + " " + o.label
-					if local[key] == nil {
-						local[key] = map[string]int64{}
+					if t.phase2 {
+						k := t.cfg.String()
+						if localCfg[k] == nil {
+							localCfg[k] = map[string]int64{}
+						}
+						localCfg[k][outcome]++
+						atomic.AddInt64(&cnt.cfgRequests, 1)
+						if v.after != nil && v.changed && v.uploadEmpty {
+							atomic.AddInt64(&cnt.cfgUploadEmptied, 1)
+						}
+					} else {
+						key := t.sf.name + " " + o.label
+						if local[key] == nil {
+							local[key] = map[string]int64{}
+						}
+						local[key][outcome]++
 					}
-					local[key][outcome]++
 					if res.routed {
 						atomic.AddInt64(&cnt.routed, 1)
-						h := sha256.Sum256([]byte(t.sf.name + "\x00" + o.label + "\x00" + res.name))
+						dk := t.sf.name + "\x00" + o.label + "\x00" + res.name
+						if t.phase2 {
+							dk += "\x00" + t.cfg.String()
+							atomic.AddInt64(&cnt.cfgRouted, 1)
+						}
+						h := sha256.Sum256([]byte(dk))
 						run.Distinct(hex.EncodeToString(h[:9]))
 						if res.status < 300 {
 							atomic.AddInt64(&cnt.accepted, 1)
+							if t.phase2 {
+								atomic.AddInt64(&cnt.cfgAccepted, 1)
+							}
 						} else {
 							atomic.AddInt64(&cnt.rejected, 1)
 						}
 					}
 					if v.insideN > 0 {
 						atomic.AddInt64(&cnt.insideEffects, 1)
+						if t.phase2 {
+							atomic.AddInt64(&cnt.cfgInside, 1)
+						}
 					}
-					if v.rootGone && !v.bad() {
+					if v.rootGone {
 						atomic.AddInt64(&cnt.rootGone, 1)
 						mu.Lock()
 						if len(rootGoneCases) < 20 {
-							rootGoneCases = append(rootGoneCases, res.input+" ["+variantName(t.planted)+"]")
+							rootGoneCases = append(rootGoneCases, res.input+" ["+variantName(t.planted)+"; "+t.cfg.String()+"]")
 						}
 						mu.Unlock()
 					}
 					sk := t.sf.name + "|" + outcome
+					if t.phase2 {
+						sk += "|cfg"
+					}
 					mu.Lock()
 					if !sampleSeen[sk] && res.routed {
 						sampleSeen[sk] = true
-						run.Sample(map[string]interface{}{"surface": t.sf.name, "variant": variantName(t.planted), "input": res.input, "name_seen_by_handler": res.name, "status": res.status, "outcome": outcome, "changes_inside_store": v.insideN})
+						run.Sample(map[string]interface{}{"surface": t.sf.name, "variant": variantName(t.planted), "store_dirs": t.cfg.String(), "input": res.input, "name_seen_by_handler": res.name, "status": res.status, "outcome": outcome, "changes_inside_store": v.insideN})
 					}
 					mu.Unlock()
 					if v.bad() {
@@ -1318,7 +1567,7 @@ func main() {
 						sb = fresh()
 						res2, v2 := execute(run, t.sf, o, sb, p, &cnt)
 						if v2.class() != v.class() || res2.status != res.status {
-							run.Fatal(fmt.Errorf("non-reproducible outcome for %s [%s]: %q/%d then %q/%d", res.input, variantName(t.planted), v.class(), res.status, v2.class(), res2.status))
+							run.Fatal(fmt.Errorf("non-reproducible outcome for %s [%s; %s]: %q/%d then %q/%d", res.input, variantName(t.planted), t.cfg, v.class(), res.status, v2.class(), res2.status))
 						}
 						if len(v.outside) > 0 {
 							atomic.AddInt64(&cnt.outsideEffects, 1)
@@ -1329,24 +1578,23 @@ func main() {
 						if v.unstored {
 							atomic.AddInt64(&cnt.unstored, 1)
 						}
-						fp := fmt.Sprintf("%s: %s (name %q)", t.sf.name, v.class(), shortName(res.name))
+						up, ca := sb.dirs()
+						first := map[string]interface{}{
+							"surface": t.sf.name, "sandbox": variantName(t.planted), "input": res.input,
+							"store_dirs":        t.cfg.String(),
+							"upload_dir_config": "<top>" + strings.TrimPrefix(up, sb.parent), "cache_dir_config": "<top>" + strings.TrimPrefix(ca, sb.parent),
+							"name_after_unescape": res.name, "status": res.status, "response": truncate(string(res.body), 200),
+							"changes_outside_store_dirs": v.outside, "files_outside_opened_or_read": v.reads, "sentinel_contents_in_response": v.leaks,
+							"success_without_file_inside": v.unstored, "store_directory_itself_removed": v.rootGone,
+						}
 						mu.Lock()
-						ag := viols[fp]
-						if ag == nil {
-							ag = &violAgg{first: map[string]interface{}{
-								"surface": t.sf.name, "sandbox": variantName(t.planted), "input": res.input,
-								"name_after_unescape": res.name, "status": res.status, "response": truncate(string(res.body), 200),
-								"changes_outside_store_dirs": v.outside, "files_outside_opened_or_read": v.reads, "sentinel_contents_in_response": v.leaks,
-								"success_without_file_inside": v.unstored,
-							}, via: map[string]map[string]bool{}}
-							viols[fp] = ag
+						if t.phase2 {
+							cnt.cfgViolating++
+							cfgViols = append(cfgViols, &cfgViol{sf: t.sf.name, label: o.label, variant: variantName(t.planted), input: res.input, name: res.name, class: v.class(), cfg: t.cfg, detail: first})
+						} else {
+							fp := nameFingerprint(t.sf.name, v.class(), res.name)
+							addViol(fp, o.label+" ["+variantName(t.planted)+" sandbox]", res.input, first)
 						}
-						ag.n++
-						k := o.label + " [" + variantName(t.planted) + " sandbox]"
-						if ag.via[k] == nil {
-							ag.via[k] = map[string]bool{}
-						}
-						ag.via[k][res.input] = true
 						mu.Unlock()
 					}
 					if v.changed || res.status == 599 || v.bad() {
@@ -1370,6 +1618,36 @@ func main() {
 		go worker()
 	}
 	wg.Wait()
+
+	// Configuration phase: a case that fails in the same way when the same
+	// layout is configured in clean form fails because of its name and is
+	// reported per name like the cases of the name phase; a case that only fails
+	// (or fails differently) under a non-clean spelling, or only in the nested
+	// layout, fails because of the configuration and is reported per (surface,
+	// effect, kind of configuration) with every configuration, route and input
+	// listed.
+	sort.Slice(cfgViols, func(i, j int) bool {
+		a, b := cfgViols[i], cfgViols[j]
+		return a.caseKey(a.cfg.String()) < b.caseKey(b.cfg.String())
+	})
+	classOf := map[string]string{}
+	for _, c := range cfgViols {
+		classOf[c.caseKey(c.cfg.String())] = c.class
+	}
+	for _, c := range cfgViols {
+		cleanCfg := &storeCfg{c.cfg.lay, spellings[0], spellings[0]}
+		var fp string
+		switch {
+		case !c.cfg.clean() && classOf[c.caseKey(cleanCfg.String())] != c.class:
+			fp = fmt.Sprintf("%s: %s [store directories configured in non-clean form, same request harmless with clean directory strings]", c.sf, c.class)
+		case c.cfg.lay.name != flatLayout.name && classOf[c.caseKey(defaultCfg.String())] != c.class:
+			fp = fmt.Sprintf("%s: %s [store directory alone under empty parent directories, same request harmless in the flat layout]", c.sf, c.class)
+		default:
+			fp = nameFingerprint(c.sf, c.class, c.name)
+		}
+		addViol(fp, c.label+" ["+c.variant+" sandbox; "+c.cfg.String()+"]", c.input, c.detail)
+	}
+
 	// one report per failure class, listing every route / call and input that reaches it
 	var fps []string
 	for fp := range viols {
@@ -1386,14 +1664,14 @@ func main() {
 			sort.Strings(via[k])
 		}
 		run.Violation(fp, map[string]interface{}{
-			"layout":          "<top>/g3/g2/sandbox/{upload,cache} are the store directories; paths are relative to <top>",
+			"layout":          "flat: <top>/g3/g2/sandbox/{upload,cache} are the store directories; nested: <top>/g3/g2/sandbox/spoolu/deep/upload and <top>/g3/g2/sandbox/spoolc/deep/cache; paths are relative to <top>",
 			"example":         ag.first,
 			"violating_cases": ag.n,
 			"reached_through": via,
 		})
 	}
 	sort.Strings(rootGoneCases)
-	run.Set("store_root_removed_cases(not judged)", rootGoneCases)
+	run.Set("store_root_removed_cases", rootGoneCases)
 	if timedOut.Load() {
 		run.NotExhaustive(fmt.Sprintf("time budget %s hit after %d requests", budget, cnt.requests))
 	}
@@ -1410,11 +1688,22 @@ func main() {
 	run.Set("requests_with_effect_outside_store", cnt.outsideEffects)
 	run.Set("requests_leaking_sentinel_content", cnt.leaks)
 	run.Set("requests_success_without_store", cnt.unstored)
-	run.Set("requests_removing_only_a_store_root_dir(not judged)", cnt.rootGone)
+	run.Set("requests_removing_a_store_root_dir", cnt.rootGone)
 	run.Set("sandbox_builds", cnt.rebuilds)
 	run.Set("sandbox_store_reinstantiations", cnt.recycles)
 	run.Set("handler_panics", cnt.panics)
 	run.Set("per_route_outcomes", opStats)
+	run.Set("config_phase_configurations", len(cfgs))
+	run.Set("config_phase_token_sequences", cSeq)
+	run.Set("config_phase_url_params", len(cps))
+	run.Set("config_phase_direct_names", len(cnames))
+	run.Set("config_phase_requests", cnt.cfgRequests)
+	run.Set("config_phase_delivered_to_code_under_test", cnt.cfgRouted)
+	run.Set("config_phase_delivered_accepted_2xx", cnt.cfgAccepted)
+	run.Set("config_phase_requests_with_effect_inside_store", cnt.cfgInside)
+	run.Set("config_phase_requests_leaving_upload_dir_empty", cnt.cfgUploadEmptied)
+	run.Set("config_phase_violating_cases", cnt.cfgViolating)
+	run.Set("config_phase_outcomes_per_configuration", cfgStats)
 	run.Set("workers", nw)
 	run.Finish()
 }
